@@ -51,8 +51,9 @@ def write_cfg(name, text):
 # ----------------------------------------------------------------------------- A: the delay-line model
 
 def dl_cfg(n, vals, ds, b, mode, body, spec="Spec"):
-    return ("SPECIFICATION %s\nCONSTANTS\n  N = %d\n  Vals = {%s}\n  Ds = {%s}\n  NGs = {0, 1}\n  B = %d\n  InMode = \"%s\"\n"
-            "  SubFrameFixed = %s\n%s\nCHECK_DEADLOCK FALSE\n" % (spec, n, ", ".join(map(str, vals)), ", ".join(map(str, ds)), b, mode,
+    vs = "Vals <- SignedVals" if vals == "signed" else "Vals = {%s}" % ", ".join(map(str, vals))
+    return ("SPECIFICATION %s\nCONSTANTS\n  N = %d\n  %s\n  Ds = {%s}\n  NGs = {0, 1}\n  B = %d\n  InMode = \"%s\"\n"
+            "  SubFrameFixed = %s\n%s\nCHECK_DEADLOCK FALSE\n" % (spec, n, vs, ", ".join(map(str, ds)), b, mode,
                                                                "FALSE" if SUBFRAME_PANICS else "TRUE", body))
 
 
@@ -67,7 +68,7 @@ def model_check(res, tier):
         jobs.append(("DelayLine N=7 vals={0,1} D=1..3 all partitions", dl_cfg(7, [0, 1], [1, 2, 3], 7, "all", DL_INVS), 4, None))
     else:
         jobs.append(("DelayLine N=8 vals={0,1} D=1..4 all partitions", dl_cfg(8, [0, 1], [1, 2, 3, 4], 8, "all", DL_INVS), 4, None))
-        jobs.append(("DelayLine N=7 vals={-1,0,1} D=1..3 all partitions", dl_cfg(7, [-1, 0, 1], [1, 2, 3], 7, "all", DL_INVS), 4, None))
+        jobs.append(("DelayLine N=7 vals={-1,0,1} D=1..3 all partitions", dl_cfg(7, "signed", [1, 2, 3], 7, "all", DL_INVS), 4, None))
     # a delay shorter than one frame: the model panics (chunks_mut(0)); the monitor calls that a violation, named as known finding
     jobs.append(("DelayLine D=0 (known finding)", dl_cfg(4, [0, 1], [0], 4, "all", "INVARIANTS PropertyHolds TypeOK"), 1, None))
     if SUBFRAME_PANICS:
